@@ -29,7 +29,7 @@ class Contract:
     """
 
     def __init__(self, qual, params, returns=None, requires=None, ensures=None, raises=None, loops=None,
-                 modifies=(), trusted=False, properties=(), note="", decreases=None, locals=None, defaults=None, hints=None, fuel=3, axioms=(), abstractions=None, result_builder=None, shards=0, inline=False, ghost_out=None, ghost_wit=None):
+                 modifies=(), trusted=False, properties=(), note="", decreases=None, locals=None, defaults=None, hints=None, fuel=3, axioms=(), abstractions=None, result_builder=None, shards=0, inline=False, ghost_out=None, ghost_wit=None, impl_only=False):
         self.qual = qual
         self.params = params
         self.returns = returns
@@ -60,6 +60,9 @@ class Contract:
         # witnesses ghost_wit(view, result); callers get fresh values (an existential postcondition)
         self.ghost_out = ghost_out or {}
         self.ghost_wit = ghost_wit
+        # impl_only: the contract of an IMPLEMENTATION of an interface method, stated in its own vocabulary;
+        # callers keep using the interface contract of the parent class (linked by named lemmas)
+        self.impl_only = impl_only
         self.inline = inline  # callers execute the (loop-free) real body instead of using the contract
         self.shards = shards  # >0: discharge the obligations in that many parallel processes
         REGISTRY[qual] = self
